@@ -1073,3 +1073,85 @@ pub fn field<'a>(text: &'a str, name: &str) -> Option<&'a str> {
     text.lines()
         .find_map(|l| l.strip_prefix(&prefix).map(|v| v.trim()))
 }
+
+/// Everything the `Iterator` trait lets a client do with an iterator the code under test hands out,
+/// compared with the item list `want` obtained independently: an implementation may override any
+/// provided method (`size_hint`, `count`, `last`, `nth`, `fold`, ...), so each of them is called on a
+/// fresh iterator and on iterators that were already advanced by 1..len items.
+pub fn iter_battery<I, T>(make: impl Fn() -> I, want: &[T], what: &str) -> Result<(), String>
+where
+    I: Iterator<Item = T>,
+    T: PartialEq + std::fmt::Debug,
+{
+    let n = want.len();
+    let all: Vec<T> = make().collect();
+    if all != want {
+        return Err(format!("{}: collect() = {:?} expected {:?}", what, all, want));
+    }
+    for k in 0..=n.min(6) {
+        // k = number of items taken with next() before the provided method is called
+        let advanced = || -> Result<I, String> {
+            let mut it = make();
+            for j in 0..k {
+                let got = it.next();
+                if got.as_ref() != want.get(j) {
+                    return Err(format!("{}: next() #{} = {:?} expected {:?}", what, j + 1, got, want.get(j)));
+                }
+            }
+            Ok(it)
+        };
+        let (lo, hi) = advanced()?.size_hint();
+        if lo > n - k || hi.is_some_and(|h| h < n - k) {
+            return Err(format!("{}: size_hint() after {} items = ({}, {:?}) with {} items left", what, k, lo, hi, n - k));
+        }
+        let c = advanced()?.count();
+        if c != n - k {
+            return Err(format!("{}: count() after {} items = {} expected {}", what, k, c, n - k));
+        }
+        let l = advanced()?.last();
+        let wl = if k < n { want.last() } else { None };
+        if l.as_ref() != wl {
+            return Err(format!("{}: last() after {} items = {:?} expected {:?}", what, k, l, wl));
+        }
+        for j in [0usize, 1, 2, n.saturating_sub(k + 1), n - k, n - k + 1, usize::MAX] {
+            let mut it = advanced()?;
+            let got = it.nth(j);
+            let w = k.checked_add(j).and_then(|i| want.get(i));
+            if got.as_ref() != w {
+                return Err(format!("{}: nth({}) after {} items = {:?} expected {:?}", what, j, k, got, w));
+            }
+            // and the iterator carries on from there
+            let after = it.next();
+            let wa = k.checked_add(j).and_then(|i| i.checked_add(1)).and_then(|i| want.get(i));
+            if got.is_some() && after.as_ref() != wa {
+                return Err(format!("{}: next() after nth({}) after {} items = {:?} expected {:?}", what, j, k, after, wa));
+            }
+        }
+        let folded: Vec<T> = advanced()?.fold(Vec::new(), |mut v, x| {
+            v.push(x);
+            v
+        });
+        if folded != want[k..] {
+            return Err(format!("{}: fold() after {} items = {:?} expected {:?}", what, k, folded, &want[k..]));
+        }
+        let skipped: Vec<T> = advanced()?.skip(1).collect();
+        if skipped != want[(k + 1).min(n)..] {
+            return Err(format!("{}: skip(1) after {} items = {:?} expected {:?}", what, k, skipped, &want[(k + 1).min(n)..]));
+        }
+        let mut it = advanced()?;
+        let stepped: Vec<T> = it.by_ref().step_by(2).collect();
+        let ws: Vec<&T> = want[k..].iter().step_by(2).collect();
+        if stepped.iter().collect::<Vec<_>>() != ws {
+            return Err(format!("{}: step_by(2) after {} items = {:?} expected {:?}", what, k, stepped, ws));
+        }
+        // exhausted iterators stay exhausted for the calls a client is likely to make next
+        let mut it = advanced()?;
+        for _ in 0..n - k {
+            it.next();
+        }
+        if it.next().is_some() {
+            return Err(format!("{}: next() yields an item past the end (after {} + {} items)", what, k, n - k));
+        }
+    }
+    Ok(())
+}
